@@ -92,6 +92,9 @@ Definition sound_table (x : xform) (a b : op) : cond :=
   | XAssoc, (Cross | Inner), (Cross | Inner | Semi | Anti | LeftJ) => Always
   | XAssoc, LeftJ, LeftJ => When [(edgeB, 2%N)]
   | XLasscom, (Cross | Inner | Semi | Anti | LeftJ), (Cross | Inner | Semi | Anti | LeftJ) => Always
+  | XLasscom, LeftJ, Full => When [(edgeA, 1%N)]
+  | XLasscom, Full, LeftJ => When [(edgeB, 1%N)]
+  | XLasscom, Full, Full => When [(edgeA, 1%N); (edgeB, 1%N)]
   | XRasscom, (Cross | Inner), (Cross | Inner) => Always
   | _, _, _ => Never
   end.
